@@ -28,7 +28,7 @@ META = {
     ],
     "bounds": {
         "quick": "3 workspace pairs (1-2 channels each, shared and private parameters, same / different measurement names) x 4 joins x merge flag; prune / rename selections of <=2 items per kind on 3 workspaces; sorted under all permutations of lists of length <=3",
-        "thorough": "6 pairs, all single and pair selections",
+        "thorough": "5 pairs for combine (the quick ones + three-vs-one-shapesys, private-staterror-shared-histosys), 6 workspaces for prune / rename / sorted; larger path and time budgets",
     },
     "stubs": [],
     "outside_claim": ["patches argument of Workspace.model", "workspaces beyond the stated family"],
@@ -63,12 +63,24 @@ def _pairs():
               dict(chans=[channel("L1", sample("sig", 2, normfactor(), normsys("JES")), sample("bkg", 2, normsys("JES"), histosys("JES", 2), normsys("xs")))],
                    pars=[{"name": "JES", "auxdata": ["$x"], "inits": ["$x"], "fixed": True}, {"name": "xs", "inits": ["$x"]}]),
               dict(chans=[channel("R1", sample("sig", 1, normfactor(), normsys("JES")))])))
+    # thorough tier only (appended last so that the indices of the pairs above are stable)
+    P.append(("three-vs-one-shapesys",
+              dict(chans=[channel("A1", sample("s", 2, normfactor(), shapesys("uA", 2))), channel("A2", sample("s", 1, normfactor(), normsys("xs"))),
+                          channel("A3", sample("b", 2, histosys("jes", 2), staterror("stA3", 2)))]),
+              dict(chans=[channel("B1", sample("s", 2, normfactor(), histosys("jes", 2)), sample("b", 2, normsys("xs"), shapefactor("sfB")))])))
+    P.append(("private-staterror-shared-histosys",
+              dict(chans=[channel("M", sample("s", 3, normfactor(), histosys("h", 3)), sample("b", 3, staterror("stM", 3)))]),
+              dict(chans=[channel("N", sample("s", 1, normfactor(), histosys("h", 1)), sample("c", 1, staterror("stN", 1), normsys("kn")))])))
     return P
+
+
+N_QUICK_COMBINE = 3
 
 
 def items(tier, seed):
     out = []
-    for pi, (tag, l, r) in enumerate(_pairs()[:3]):
+    combine_pairs = [pi for pi in range(len(_pairs())) if pi < N_QUICK_COMBINE or (tier == "thorough" and pi >= 4)]
+    for pi in combine_pairs:
         for join in ("none", "outer", "left outer", "right outer"):
             for merge in ((False,) if join == "none" else (False, True)):
                 for same_meas in ((False,) if join == "none" else (False, True)):
@@ -79,7 +91,7 @@ def items(tier, seed):
     out.append(("refuse", "measurement"))
     out.append(("refuse", "parameter"))
     out.append(("refuse", "misc"))
-    for pi in range(len(_pairs())):
+    for pi in range(len(_pairs()) if tier == "thorough" else 4):
         out.append(("prune", pi))
         out.append(("rename", pi))
         out.append(("sorted", pi))
